@@ -3,3 +3,5 @@ import DFV.Json
 import DFV.DrvLoop
 import DFV.Drv.C01
 import DFV.Props.C01
+import DFV.Drv.C04
+import DFV.Props.C04
